@@ -23,12 +23,15 @@ RULE = ("G1 formula ASTs (118 symbols, integer/decimal counts, nested ()[]{} gro
         "greek prefixes, phase suffixes, primes, the electron) are rendered by chempy from their text; an own tokenizer "
         "undoes exactly the presentation mapping of the format and must recover the canonical text of the AST.  "
         "Non-trivial formula = (a count >= 10 or a decimal count) and (charge magnitude >= 2 or a hydrate part); "
-        "species: a suffix together with a custom `phases` argument; reactions: a coefficient > 1 and a key with a "
-        "charge or a count.  Distinct by case digest.  'prefixes' enumerates all 25 prefixes x 4 bodies.")
+        "species: a suffix together with a custom `phases` argument; reactions (integer coefficients 1..1000 and "
+        "fractional ones 0.001..999.999 with 1-3 decimals, built with checks=()): a coefficient != 1 and a key with a "
+        "charge or a count; a printed coefficient is read back as a number.  Distinct by case digest.  'prefixes' enumerates all 25 prefixes x 4 bodies.")
 ASSUMPTIONS = ["vlib/gen_formula.py canonical text and Fraction composition of the AST (shared reference model of C01)",
                "own transcription of the presentation tables (greek names/letters, sub/superscript digits, arrows: "
                "\\rightarrow \\rightleftharpoons / U+2192 U+21CC / &rarr; &harr;)",
-               "decimal subscripts are compared with relative tolerance 1e-9 (chempy sums floats), integers exactly"]
+               "decimal subscripts are compared with relative tolerance 1e-9 (chempy sums floats), integers exactly",
+               "a fractional reaction coefficient 'n.ddd' is stored as the Python float of that literal; the printed "
+               "coefficient may be spelled in any plain/scientific decimal notation but has to denote exactly that float"]
 
 FORMATS = ("latex", "unicode", "html")
 
@@ -364,18 +367,36 @@ def substance_cases(draw):
 
 # -- reactions -------------------------------------------------------------------------
 
+_NUMBER_RE = re.compile(r"^(?:[0-9]+\.?[0-9]*|\.[0-9]+)(?:[eE][+-]?[0-9]+)?$")
+
+
 def _parse_side(fmt, side):
-    """'2 X + Y' -> [(2, 'X'), (1, 'Y')] with the names still rendered; '' -> []."""
+    """'2 X + 0.5 Y + Z' -> [(Fraction(2), 'X'), (Fraction(1, 2), 'Y'), (Fraction(1), 'Z')] with the names still
+    rendered; '' -> [].  The coefficient is read as a number (exact value of the decimal text), whatever its spelling."""
     if side == "":
         return []
     items = []
     for it in side.split(" + "):
         head, sep, rest = it.partition(" ")
-        if sep and re.match(r"^[0-9]+$", head):
-            items.append((int(head), rest))
+        if sep and _NUMBER_RE.match(head):
+            items.append((Fraction(head), rest))
         else:
-            items.append((1, it))
+            items.append((Fraction(1), it))
     return items
+
+
+def coef_value(c):
+    """the coefficient of the description as a Python number: int, or the float of a decimal literal 'n.ddd'"""
+    return float(c) if isinstance(c, str) else c
+
+
+def same_coefficient(shown, c):
+    """shown: Fraction read from the print-out; c: coefficient of the description.  An integer has to be shown
+    exactly; a float has to be shown by a decimal text that denotes that float (float(text) == stored value: exact
+    comparison, the shortest repr '0.1' and a longer '0.1000000000000000055' both qualify, '0.10001' does not)."""
+    if isinstance(c, str):
+        return float(shown) == float(c)
+    return shown == c
 
 
 def _has_count(f):
@@ -384,6 +405,7 @@ def _has_count(f):
 
 def check_reaction(case, ctx):
     """case: {"kind": "Reaction"|"Equilibrium", "ordered": bool, "reac": [[coef, AST], ...], "prod": [...]}
+    coef: int, or a decimal literal "n.ddd" (str) for a fractional coefficient (stored as that float).
     keys within one side are distinct by construction (see reaction_cases)."""
     import chempy
     from collections import OrderedDict
@@ -397,7 +419,7 @@ def check_reaction(case, ctx):
         for c, f in case[name]:
             if f["charge"] is not None or _has_count(f):
                 interesting = True
-            if c > 1:
+            if coef_value(c) != 1:
                 big = True
         if not case["ordered"]:
             lst.sort(key=lambda t: t[1])      # a plain dict is stored sorted by key
@@ -405,6 +427,15 @@ def check_reaction(case, ctx):
     ctx.label(case["kind"], "ordered" if case["ordered"] else "dict",
               "nreac=%d" % len(sides[0]), "nprod=%d" % len(sides[1]))
     ctx.nontrivial(interesting and big)
+    fractional = [Fraction(c) for c, _ in case["reac"] + case["prod"] if isinstance(c, str)]
+    if fractional:
+        ctx.label("fractional_coef")
+        if any(v < 1 for v in fractional):
+            ctx.label("fractional_coef<1")
+        if any(1 < v < 2 for v in fractional):
+            ctx.label("fractional_coef_between_1_and_2")
+        if any(v > 100 for v in fractional):
+            ctx.label("fractional_coef>100")
     for c, f in case["reac"] + case["prod"]:
         k = G.text(f)
         if k not in substances:
@@ -414,7 +445,9 @@ def check_reaction(case, ctx):
                 return
             substances[k] = sub
     mk = OrderedDict if case["ordered"] else dict
-    rxn = Cls(mk((G.text(f), c) for c, f in case["reac"]), mk((G.text(f), c) for c, f in case["prod"]), checks=())
+    # checks=(): the default constructor checks refuse non-integral coefficients (and unbalanced generated keys)
+    rxn = Cls(mk((G.text(f), coef_value(c)) for c, f in case["reac"]),
+              mk((G.text(f), coef_value(c)) for c, f in case["prod"]), checks=())
     for fmt in FORMATS:
         out = getattr(rxn, fmt)(substances)
         arrow = " " + ARROWS[case["kind"]][fmt] + " "
@@ -429,8 +462,8 @@ def check_reaction(case, ctx):
                 break
             ok = True
             for (gc, gname), (ec, key, canon) in zip(items, expected):
-                if gc != ec:
-                    ctx.fail("coefficient:" + fmt, printed=out, side=side_name, key=key, got=gc, expected=ec)
+                if not same_coefficient(gc, ec):
+                    ctx.fail("coefficient:" + fmt, printed=out, side=side_name, key=key, got=str(gc), expected=ec)
                     ok = False
                     break
                 if not judge_name(ctx, fmt, gname, canon, "reaction", key):
@@ -438,6 +471,22 @@ def check_reaction(case, ctx):
                     break
             if not ok:
                 break
+
+
+def _fractional_text(draw):
+    """a non-integral decimal literal 'n.d' with 1-3 decimals: 0.5, 0.25, 1.5, 2.5, 12.25, 106.5, 999.975 ...
+    (integer part 0 = a coefficient below one is the simplest and the most frequent)"""
+    m = draw(st.integers(0, 7))
+    if m < 3:
+        ip = 0
+    elif m < 5:
+        ip = draw(st.integers(1, 2))
+    elif m < 7:
+        ip = draw(st.integers(3, 99))
+    else:
+        ip = draw(st.integers(100, 999))
+    nd = draw(st.integers(1, 3))
+    return "%d.%0*d" % (ip, nd, draw(st.integers(1, 10 ** nd - 1)))
 
 
 @st.composite
@@ -452,14 +501,21 @@ def reaction_cases(draw):
         for _ in range(n):
             f = draw(G.formulas(max_depth=2, max_terms=4, max_hydrates=1))
             t = G.text(f)
-            if t in seen:      # keys of one side are distinct: count the repeat on the existing entry instead
+            if t in seen:      # keys of one side are distinct: count the repeat on the existing (integer) entry instead
                 for it in side:
-                    if G.text(it[1]) == t:
+                    if G.text(it[1]) == t and isinstance(it[0], int):
                         it[0] += 1
                 continue
             seen.add(t)
-            c = draw(st.integers(0, 9))
-            coef = 1 if c < 4 else (draw(st.integers(2, 12)) if c < 9 else draw(st.integers(13, 1000)))
+            c = draw(st.integers(0, 11))
+            if c < 4:
+                coef = 1
+            elif c < 9:
+                coef = draw(st.integers(2, 12))
+            elif c == 9:
+                coef = draw(st.integers(13, 1000))
+            else:
+                coef = _fractional_text(draw)
             side.append([coef, f])
         sides.append(side)
     return {"kind": kind, "ordered": ordered, "reac": sides[0], "prod": sides[1]}
@@ -475,5 +531,6 @@ SUBCHECKS = [
     SubCheck("substance", check_substance, strategy=substance_cases(), quick=1500, thorough=100000,
              rule="Substance.from_formula / Species.from_formula (default, list and dict `phases`, default_phase_idx 0/n/None)"),
     SubCheck("reaction", check_reaction, strategy=reaction_cases(), quick=600, thorough=40000,
-             rule="Reaction/Equilibrium over 2-5 G1 keys (dict = sorted, OrderedDict = given order), coefficients 1..1000, x 3 formats"),
+             rule="Reaction/Equilibrium over 2-5 G1 keys (dict = sorted, OrderedDict = given order), integer coefficients 1..1000 "
+                  "and fractional ones (1-3 decimals, below and above 1, checks=()), x 3 formats"),
 ]
